@@ -318,16 +318,15 @@ def resolveRef (vars : List (Str × Val)) : Nat → List Str → Str → Resolve
                 else (.val v, lastName)
               | .leaf _ => (.val v, lastName)
               | other => if anyStrLeafV (·.contains '$') other then (.unsupported, lastName) else (.val other, lastName)
-          let (r, refName) := follow fuel (visited ++ [name]) v0 name
+          let (r, _) := follow fuel (visited ++ [name]) v0 name
           match r with
           | .val v =>
             if idx.isEmpty then .val v
-            else (match parseIndexing idx, getVar refName vars with
-              | some path, some base => (match indexVal base path with
+            else (match parseIndexing idx with
+              | some path => (match indexVal v path with     -- `eval(f"value{indexing}")`: the resolved value is indexed
                 | some x => .val x
                 | none => .val v)              -- exception suppressed: the value stays what it was
-              | some _, none => .val v
-              | none, _ => .unsupported)
+              | none => .unsupported)
           | other => other
 
 inductive EvalResult where
